@@ -18,22 +18,22 @@ for d in $dirs; do
   git -C "$REPO" apply "$ROOT/$d/patch.diff" || { echo "$name: patch does not apply"; continue; }
   res="missed"; detail=""
   for c in $checks; do
-    s=$(date +%s); ./check $c --tier quick > /tmp/matrix.out 2>&1; rc=$?; e=$(date +%s)
-    line=$(grep -E "^violation" /tmp/matrix.out | head -1 | cut -c1-300)
+    s=$(date +%s); ./check $c --tier quick > "$ROOT/target/matrix.out" 2>&1; rc=$?; e=$(date +%s)
+    line=$(grep -E "^violation" "$ROOT/target/matrix.out" | head -1 | cut -c1-300)
     if [ $rc -eq 1 ]; then
       res="detected"; detail="check=$c secs=$((e-s)) $line"
       # the replay file must reproduce the violation (same class) in fresh processes, twice
-      rp=$(grep -E "^VIOLATION" /tmp/matrix.out | head -1 | sed -E 's/.*replay=//')
+      rp=$(grep -E "^VIOLATION" "$ROOT/target/matrix.out" | head -1 | sed -E 's/.*replay=//')
       cls=$(echo "$line" | sed -E 's/.*class=([a-z_]+).*/\1/')
       ok=0
       for i in 1 2; do
-        ./target/debug/verif-sim replay "$rp" > /tmp/matrix.replay 2>&1; rrc=$?
-        if [ $rrc -eq 1 ] && grep -q "class=$cls" /tmp/matrix.replay; then ok=$((ok+1)); else mkdir -p "$ROOT/target/replay_failures"; { echo "rc=$rrc cls=$cls file=$rp"; head -40 /tmp/matrix.replay; } > "$ROOT/target/replay_failures/$name.$i.txt"; fi
+        ./target/debug/verif-sim replay "$rp" > "$ROOT/target/matrix.replay" 2>&1; rrc=$?
+        if [ $rrc -eq 1 ] && grep -q "class=$cls" "$ROOT/target/matrix.replay"; then ok=$((ok+1)); else mkdir -p "$ROOT/target/replay_failures"; { echo "rc=$rrc cls=$cls file=$rp"; head -40 "$ROOT/target/matrix.replay"; } > "$ROOT/target/replay_failures/$name.$i.txt"; fi
       done
       detail="$detail replay_reproduced=$ok/2"
       break
     fi
-    if [ $rc -eq 2 ]; then res="harness_error"; detail="check=$c $(grep HARNESS /tmp/matrix.out | head -1)"; break; fi
+    if [ $rc -eq 2 ]; then res="harness_error"; detail="check=$c $(grep HARNESS "$ROOT/target/matrix.out" | head -1)"; break; fi
   done
   git -C "$REPO" checkout -- .
   echo "$name: $res $detail"
